@@ -39,6 +39,11 @@ _Static_assert(sizeof(Float) == 8 && sizeof(Index) == 4, "element sizes");
 #define GV_ALLOC(T, n) ((T *)malloc((size_t)(n) * sizeof(T)))
 #endif
 
+#ifdef GV_BOUNDED
+#define GV_CANARY_U(tag) ((void)0)     /* function not reached by the bounded harness: no reachability canary */
+#else
+#define GV_CANARY_U(tag) GV_CANARY(tag)
+#endif
 int   gv_exc;
 Index gv_r0;     /* ghost row index    (forall-introduction / -elimination over rows)    */
 Index gv_e0;     /* ghost entry index  (forall-introduction / -elimination over entries) */
@@ -214,7 +219,7 @@ __CPROVER_ensures((ROW_IN(self, gv_r0) && WF_ROW(self, gv_r0)) ==> WF_ROW(__CPRO
 __CPROVER_ensures(ENT_IN(self, gv_e0) ==> (__CPROVER_return_value->cind[gv_e0] == self->cind[gv_e0] &&
                                            FEQ(__CPROVER_return_value->nonz[gv_e0], self->nonz[gv_e0])))
 //@ entry SparseMatrix_replicate3
-GV_CANARY("SparseMatrix_replicate3 entry");
+GV_CANARY_U("SparseMatrix_replicate3 entry");
 //@ end
 
 /* replicate(): the same with the matrix's own sizes */
@@ -233,7 +238,7 @@ __CPROVER_ensures((ROW_IN(self, gv_r0) && WF_ROW(self, gv_r0)) ==> WF_ROW(__CPRO
 __CPROVER_ensures(ENT_IN(self, gv_e0) ==> (__CPROVER_return_value->cind[gv_e0] == self->cind[gv_e0] &&
                                            FEQ(__CPROVER_return_value->nonz[gv_e0], self->nonz[gv_e0])))
 //@ entry SparseMatrix_replicate0
-GV_CANARY("SparseMatrix_replicate0 entry");
+GV_CANARY_U("SparseMatrix_replicate0 entry");
 //@ end
 
 /* ------------------------------------------------------------------------------------------------ */
@@ -243,31 +248,31 @@ __CPROVER_requires(WF_SHAPE(self) && ROW_IN(self, i) && WF_ROW(self, i))
 __CPROVER_assigns()
 __CPROVER_ensures(SAME(__CPROVER_return_value, self->nonz) && OFF(__CPROVER_return_value) == OFF(self->nonz) + FSZ * self->rptr[i])
 //@ entry SparseMatrix_begin
-GV_CANARY("SparseMatrix_begin entry");
+GV_CANARY_U("SparseMatrix_begin entry");
 //@ contract SparseMatrix_end
 __CPROVER_requires(WF_SHAPE(self) && ROW_IN(self, i) && WF_ROW(self, i))
 __CPROVER_assigns()
 __CPROVER_ensures(SAME(__CPROVER_return_value, self->nonz) && OFF(__CPROVER_return_value) == OFF(self->nonz) + FSZ * self->rptr[i + 1])
 //@ entry SparseMatrix_end
-GV_CANARY("SparseMatrix_end entry");
+GV_CANARY_U("SparseMatrix_end entry");
 //@ contract SparseMatrix_ibegin
 __CPROVER_requires(WF_SHAPE(self) && ROW_IN(self, i) && WF_ROW(self, i))
 __CPROVER_assigns()
 __CPROVER_ensures(SAME(__CPROVER_return_value, self->cind) && OFF(__CPROVER_return_value) == OFF(self->cind) + ISZ * self->rptr[i])
 //@ entry SparseMatrix_ibegin
-GV_CANARY("SparseMatrix_ibegin entry");
+GV_CANARY_U("SparseMatrix_ibegin entry");
 //@ contract SparseMatrix_iend
 __CPROVER_requires(WF_SHAPE(self) && ROW_IN(self, i) && WF_ROW(self, i))
 __CPROVER_assigns()
 __CPROVER_ensures(SAME(__CPROVER_return_value, self->cind) && OFF(__CPROVER_return_value) == OFF(self->cind) + ISZ * self->rptr[i + 1])
 //@ entry SparseMatrix_iend
-GV_CANARY("SparseMatrix_iend entry");
+GV_CANARY_U("SparseMatrix_iend entry");
 //@ contract SparseMatrix_size
 __CPROVER_requires(WF_SHAPE(self) && ROW_IN(self, i) && WF_ROW(self, i))
 __CPROVER_assigns()
 __CPROVER_ensures(__CPROVER_return_value == self->rptr[i + 1] - self->rptr[i] && __CPROVER_return_value >= 0)
 //@ entry SparseMatrix_size
-GV_CANARY("SparseMatrix_size entry");
+GV_CANARY_U("SparseMatrix_size entry");
 //@ end
 
 /* ------------------------------------------------------------------------------------------------ */
@@ -489,6 +494,7 @@ void h_transpose(void)
   GV_CANARY("h_transpose end");
 }
 
+#ifdef GV_BOUNDED
 /* ---- bounded cross-check (no contracts, loops unwound): all matrices with rows, cols <= 3 and nnz <= 4, built
    through the extracted constructor / new_row / add_element.  Oracle: the multiset of (row, column, value) triples. */
 static int gv_count(const struct SparseMatrix *M, Index r, Index c, Float v)
@@ -542,6 +548,8 @@ void h_transpose_rt(void)
   }
   GV_CANARY("h_transpose_rt end");
 }
+
+#endif
 
 void h_access(void)
 {
